@@ -668,8 +668,8 @@ def __inner_indent(
     opening: str | Separators = token_stream[index]
     assert opening in MATCHING_BRACKETS
     closing: str = MATCHING_BRACKETS[opening]  # type: ignore
-    # lua functions don't allow trailing argument separators
-    use_trailing: bool = opening != ")"
+    # only table constructors allow trailing argument separators
+    use_trailing: bool = opening == "}"
     components: list[Retype] = []
     current_component: Retype = []
     index -= 1
